@@ -14,3 +14,5 @@ git diff --stat | tail -1
 cd /verif
 for p in "$@"; do ./check $p quick 2>&1 | grep -E "VIOLATION|quick:" | cut -c1-200; done
 git -C /repo checkout -- . ; git -C /repo status --short | head -3
+# the evidence files were just rewritten by runs against a changed tree: put the committed ones back
+git -C /verif checkout -- evidence 2>/dev/null
